@@ -113,6 +113,7 @@ def handle (line : String) : String :=
           | .empty => "empty" | .single => "single" | .multi => "multi"
       | _, _, _ => "bad-op"
   | ["ignore", v, cwd, spd, p, dirs, ms] => Driver.IgnoreProto.handle v cwd spd p dirs ms
+  | ["eof", eol, f, body] => Driver.TriviaProto.handleEof eol f body
   | ["tyfmt", i, o] => Driver.TypeProto.handleFmt i o
   | ["tywf", t, r] => Driver.TypeProto.handleWf t r
   | ["parse", i] => Driver.ExprProto.handleParse i
